@@ -56,6 +56,9 @@ def alphabet(tier_quick):
         {"k": "copy"},
         {"k": "addarr", "kind": "int64", "nonuniform": True},
         {"k": "setitem", "i": 0, "v": 5},
+        # shifts by a time object READ FROM THE AXIS ITSELF (the operand may alias the samples being changed)
+        {"k": "sub", "kind": "self_elem", "idx": 0},
+        {"k": "add", "kind": "self_elem", "idx": -1},
     ]
     if not tier_quick:
         ops += [{"k": "mul", "v": -1}, {"k": "slice", "a": 1, "b": None, "c": 2}]
@@ -64,6 +67,12 @@ def alphabet(tier_quick):
 
 # extra hand-written histories (schemes), run in every tier on every axis
 EXTRA = [
+    # operands that are, alias, or were copied from the target itself or another axis
+    [{"k": "addarr", "kind": "self"}, {"k": "sub", "kind": "self_elem", "idx": 1}, {"k": "add", "kind": "int", "v": 1}],
+    [{"k": "addarr", "kind": "self_view"}, {"k": "subarr", "kind": "copy_self_half"}],
+    [{"k": "subarr", "kind": "self"}, {"k": "addarr", "kind": "copy_self"}, {"k": "sub", "kind": "copy_elem", "idx": -1}],
+    [{"k": "add", "kind": "self_elem", "idx": 1}, {"k": "sub", "kind": "other_elem", "idx": 0}, {"k": "add", "kind": "copy_elem", "idx": 0}],
+    [{"k": "slice", "a": 1, "b": None, "c": 1}, {"k": "sub", "kind": "self_elem", "idx": 0}, {"k": "addarr", "kind": "self"}],
     [{"k": "mul", "v": 0}, {"k": "add", "kind": "int", "v": 1}],
     [{"k": "mul", "v": -1}, {"k": "add", "kind": "npint", "v": 1}],
     [{"k": "subarr", "kind": "ut", "r0": 0, "dr": "same"}, {"k": "copy"}],          # interval becomes 0
@@ -78,11 +87,25 @@ EXTRA = [
 ]
 
 
-def concretize(sch, axis, cur_len, cur_dt_ps):
-    """turn a scheme into a concrete operation for an axis whose current length is cur_len"""
+ELEM_KINDS = ("self_elem", "copy_elem", "other_elem")
+SELF_ARR_KINDS = ("self", "self_view", "copy_self", "copy_self_half")
+
+
+def concretize(sch, axis, cur_len, cur_dt_ps, cur=None):
+    """turn a scheme into a concrete operation for an axis whose current length is cur_len (cur = its current samples)"""
     cf = FACT[axis[0]]
     op = dict(sch)
     k = op["k"]
+    if k in ("add", "sub") and op["kind"] in ELEM_KINDS and "ps" not in op:
+        if not -cur_len <= op["idx"] < cur_len:
+            # the element does not exist (empty / too short axis): reading it raises IndexError before anything happens;
+            # the same outcome is produced by an empty 1-d operand (IndexError, nothing touched)
+            return {"k": "addarr" if k == "add" else "subarr", "kind": "int64", "l": []}
+        op["ps"] = cur[op["idx"]]          # the value the operand has when it is read
+        return op
+    if k in ("addarr", "subarr") and op["kind"] in SELF_ARR_KINDS and "l" not in op:
+        op["l"] = [x // 2 for x in cur] if op["kind"] == "copy_self_half" and all(x % 2 == 0 for x in cur) else list(cur)
+        return op
     if k in ("addarr", "subarr") and "l" not in op:
         kind = op["kind"]
         n = cur_len
@@ -116,9 +139,25 @@ def is_bare(kind):
     return kind in ("int", "npint", "int64", "int32", "list")
 
 
-def operand(ts, op, axis):
+def operand(ts, op, axis, u=None):
     unit = axis[0]
     kind = op["kind"]
+    if kind == "self_elem":
+        return u[op["idx"]]                      # a 0-d time object read from the target itself
+    if kind == "copy_elem":
+        return u.copy()[op["idx"]]
+    if kind == "other_elem":                     # the same instant read from another axis
+        return ts.UniformTime(length=2, sampling_interval=1, t0=int(op["ps"]), time_unit="ps")[0]
+    if kind == "self":
+        return u                                 # u += u
+    if kind == "self_view":
+        return u[:]
+    if kind == "copy_self":
+        return u.copy()
+    if kind == "copy_self_half":
+        t = ts.TimeArray(np.array(op["l"], dtype=np.int64), time_unit="ps")
+        t.convert_unit(unit)
+        return t
     if "l" in op:
         l = op["l"]
         if kind == "ut":       # a genuine UniformTime ramp when it is one, else a TimeArray
@@ -153,13 +192,13 @@ def apply_op(ts, u, op, axis):
     k = op["k"]
     try:
         if k == "add":
-            u += operand(ts, op, axis)
+            u += operand(ts, op, axis, u)
         elif k == "sub":
-            u -= operand(ts, op, axis)
+            u -= operand(ts, op, axis, u)
         elif k == "addarr":
-            u += operand(ts, op, axis)
+            u += operand(ts, op, axis, u)
         elif k == "subarr":
-            u -= operand(ts, op, axis)
+            u -= operand(ts, op, axis, u)
         elif k == "mul":
             u *= op["v"]
         elif k == "div":
@@ -243,7 +282,7 @@ def op_coq(op, axis):
     k = op["k"]
     if k in ("add", "sub"):
         bare = is_bare(op["kind"])
-        v = op["v"] if bare else op["v"] * cf
+        v = op["ps"] if "ps" in op else (op["v"] if bare else op["v"] * cf)
         return "(%s %s %s)" % ("OpAddScalar" if k == "add" else "OpSubScalar", blit(bare), zlit(v))
     if k in ("addarr", "subarr"):
         return "(%s %s %s)" % ("OpAddArr" if k == "addarr" else "OpSubArr", blit(is_bare(op["kind"])), zlist(op["l"]))
@@ -287,7 +326,7 @@ def build(ts, axis, prefix, schemes, depth, counter):
     nodes = []
     for sch in schemes:
         u, _ = run_history(ts, axis, prefix)
-        op = concretize(sch, axis, len(u), int(u.sampling_interval))
+        op = concretize(sch, axis, len(u), int(u.sampling_interval), [int(x) for x in np.asarray(u)])
         u2, exc = apply_op(ts, u, op, axis)
         node = {"op": op, "obs": observe(u2), "exc": err_name(exc), "kids": []}
         counter[0] += 1
@@ -304,7 +343,7 @@ def build_path(ts, axis, schemes, counter):
     cur = None
     for sch in schemes:
         u, _ = run_history(ts, axis, prefix)
-        op = concretize(sch, axis, len(u), int(u.sampling_interval))
+        op = concretize(sch, axis, len(u), int(u.sampling_interval), [int(x) for x in np.asarray(u)])
         u2, exc = apply_op(ts, u, op, axis)
         node = {"op": op, "obs": observe(u2), "exc": err_name(exc), "kids": []}
         counter[0] += 1
@@ -323,7 +362,8 @@ def spec_step(a, op, cf):
     t0, dt, n = a
     k = op["k"]
     if k in ("add", "sub"):
-        v = op["v"] * cf            # bare numbers and the 0-d TimeArray are both given in the axis unit
+        # bare numbers and the 0-d TimeArray are given in the axis unit; an element read from an axis is what it is (ps)
+        v = op["ps"] if "ps" in op else op["v"] * cf
         return (t0 + v if k == "add" else t0 - v, dt, n), None
     if k in ("addarr", "subarr"):
         l = [x * cf for x in op["l"]] if is_bare(op["kind"]) else list(op["l"])
